@@ -25,11 +25,13 @@ RULE = (
     "lock protocol is run once to learn its events, then re-run with each event in {write, flush, fsync, chmod, "
     "replace, rename, close} failing with ENOSPC / EIO / EPERM / KeyboardInterrupt: every protected file must hold its "
     "old or its complete new content and no *.lock may remain after the caller dropped its references.  (c) caller "
-    "level, two actors: 17 pairs of routines that go for the same protected file (refs, HEAD, packed-refs, index, "
+    "level, two actors: 20 pairs of routines that go for the same protected file (refs, HEAD, packed-refs, index, "
     "config, shallow) run under every schedule with <= 1 preemption plus DFS with bound 2 under a cap plus seeded random "
     "placements; after every event each protected file under .git must hold a content that some sequential execution of "
     "the two routines leaves there (complete old or complete new), no *.lock may remain, no actor may take or remove a "
-    "lock another holds.  Non-trivial: a "
+    "lock another holds.  (d) sessions that take a lock and have nothing to write (read-only locked_ref, failed "
+    "compare-and-swap, add_if_new on an existing ref, with-block raising) must leave every protected file byte-identical "
+    "and no lock behind.  Non-trivial: a "
     "schedule with a switch while some actor holds the lock / a fault at an event after the lock was taken; distinct "
     "by (programs, schedule) or (routine, state, k, fault)."
 )
@@ -456,6 +458,19 @@ def _part_faults(ctx, item):
 # (c) caller level, two actors: routines that write the same protected file, interleaved
 
 
+def _locked_session(name, action):
+    def run(r):
+        from dulwich.refs import locked_ref
+
+        with locked_ref(r.refs, name) as l:
+            l.get()
+            if action == "delete":
+                l.delete()
+            elif action is not None:
+                l.set(action)
+    return run
+
+
 def caller_pairs(ids):
     """name -> [fnA(repo), fnB(repo)]: two routines that go for the same lock-protected file."""
     from dulwich.index import IndexEntry
@@ -491,10 +506,82 @@ def caller_pairs(ids):
         "set_if_equals|pack_refs": [R(lambda r: r.refs.set_if_equals(loose, ids[0], ids[2])), R(lambda r: r.refs.pack_refs(all=True))],
         "remove_if_equals|pack_refs": [R(lambda r: r.refs.remove_if_equals(both, ids[1])), R(lambda r: r.refs.pack_refs(all=True))],
         "add_packed_refs|remove_if_equals(packed)": [R(lambda r: r.refs.add_packed_refs({loose: ids[0]})), R(lambda r: r.refs.remove_if_equals(b"refs/tags/t", ids[1]))],
+        "locked_ref(set)|set_if_equals": [R(_locked_session(loose, ids[2])), R(lambda r: r.refs.set_if_equals(loose, ids[0], ids[1]))],
+        "locked_ref(read-only)|set_if_equals": [R(_locked_session(loose, None)), R(lambda r: r.refs.set_if_equals(loose, ids[0], ids[1]))],
+        "locked_ref(delete)|add_if_new": [R(_locked_session(loose, "delete")), R(lambda r: r.refs.add_if_new(loose, ids[1]))],
         "Index.write|Index.write": [idx(b"A"), idx(b"BB")],
         "ConfigFile.write_to_path|ConfigFile.write_to_path": [cfg(b"name", b"A"), cfg(b"email", b"b@example.com")],
         "update_shallow|update_shallow": [R(lambda r: r.update_shallow({ids[1]}, None)), R(lambda r: r.update_shallow({ids[0]}, None))],
     }
+
+
+def giving_up(ids):
+    """name -> fn(repo): sessions that take a lock and release it without a change to make.  Every protected file must be
+    byte-identical afterwards ("the old content stays in place and the lock is released")."""
+    from dulwich.refs import locked_ref
+
+    loose, packed, both, absent = b"refs/heads/loose", b"refs/heads/b", b"refs/heads/a", b"refs/heads/nope"
+
+    def read_only(name):
+        def run(r):
+            with locked_ref(r.refs, name) as l:
+                l.get()
+                l.ensure_equals(ids[2])
+        return run
+
+    def raising(name):
+        def run(r):
+            try:
+                with locked_ref(r.refs, name) as l:
+                    l.set(ids[2])
+                    raise RuntimeError("caller changed its mind")
+            except RuntimeError:
+                pass
+        return run
+
+    return {
+        "locked_ref(read-only,loose)": read_only(loose),
+        "locked_ref(read-only,packed)": read_only(packed),
+        "locked_ref(read-only,loose+packed)": read_only(both),
+        "locked_ref(set-then-raise,loose)": raising(loose),
+        "locked_ref(set-then-raise,packed)": raising(packed),
+        "set_if_equals(stale,loose)": lambda r: r.refs.set_if_equals(loose, ids[2], ids[1]),
+        "set_if_equals(stale,packed)": lambda r: r.refs.set_if_equals(packed, ids[2], ids[0]),
+        "set_if_equals(stale,absent)": lambda r: r.refs.set_if_equals(absent, ids[2], ids[0]),
+        "add_if_new(existing,loose)": lambda r: r.refs.add_if_new(loose, ids[2]),
+        "add_if_new(existing,packed)": lambda r: r.refs.add_if_new(packed, ids[2]),
+        "remove_if_equals(stale,loose)": lambda r: r.refs.remove_if_equals(loose, ids[2]),
+        "remove_if_equals(stale,packed)": lambda r: r.refs.remove_if_equals(packed, ids[2]),
+        "remove_if_equals(stale,loose+packed)": lambda r: r.refs.remove_if_equals(both, ids[2]),
+    }
+
+
+def run_giving_up(ctx, template, ids, name, check="giving-up"):
+    case = dict(routine=name)
+    work = ctx.scratch.new("gu")
+    repo = os.path.join(work, "repo")
+    shutil.copytree(template, repo, symlinks=True)
+    before = _watched_map(repo)
+    out = {}
+    _caller_actor(repo, giving_up(ids)[name], out, "A")()
+    gc.collect()
+    after = _watched_map(repo)
+    diff = sorted(k for k in set(before) | set(after) if before.get(k) != after.get(k))
+    # an absent ref may legitimately leave empty directories, never files
+    if diff:
+        k = diff[0]
+        ctx.fail(f"C07:giving-up:{name}:content-changed", f"{name} (outcome {out.get('A')}) had nothing to write, yet {k} changed from {before.get(k)!r} to {after.get(k)!r}", check, case)
+    left = sorted(k for k in file_map(repo) if k.endswith(".lock"))
+    if left:
+        ctx.fail(f"C07:giving-up:{name}:lock-left-behind", f"{name}: {left} still exist after the session ended", check, case)
+    ctx.case(h64("gu", name), nontrivial=True, labels=("giving-up", "giving-up:" + name, "giving-up-outcome:%s" % (out.get("A", ("?",))[0],)))
+    shutil.rmtree(work, ignore_errors=True)
+
+
+def _part_giving_up(ctx, names):
+    template, ids = _prepare(ctx)
+    for name in names:
+        run_giving_up(ctx, template, ids, name)
 
 
 def _watched(rel):
@@ -701,6 +788,7 @@ def run(ctx):
     ctx.note("routines", names)
     ctx.parallel(_part_faults, [(n, r, 4) for n in names for r in range(4)])
     ctx.parallel(_part_callers, [(pair, ctx.scale(120, 6000)) for pair in sorted(caller_pairs(ids))])
+    ctx.parallel(_part_giving_up, [sorted(giving_up(ids))[k::4] for k in range(4)])
     ctx.note("exhaustive", True)
 
 
@@ -713,6 +801,9 @@ def replay(ctx, check, case):
         before = file_map(template)
         n, after, _ = _profile(ctx, template, ids, case["routine"])
         run_fault(ctx, template, ids, case["routine"], case["k"], case["fault"], before, after)
+    elif check == "giving-up":
+        template, ids = _prepare(ctx)
+        run_giving_up(ctx, template, ids, case["routine"])
     elif check == "callers":
         # a pinned schedule goes stale when the code gains or loses a file-system call: explore the pair instead
         template, ids = _prepare(ctx)
